@@ -13,7 +13,9 @@ args = [a for a in sys.argv[1:] if not a.startswith("--")]
 RERUN = "--rerun" in sys.argv          # only re-run the checks against an already confirmed seed in /verif/seeded
 pid, k = args[0], args[1]
 ids = args[2:] or [pid]
-WT = "/tmp/seed-%s" % pid
+ROUND2 = "--round2" in sys.argv           # second-round worktrees /tmp/seed2-<PID>, kept as seeded/<PID>-r2-<k>
+WT = ("/tmp/seed2-%s" if ROUND2 else "/tmp/seed-%s") % pid
+TAG = "%s-r2-%s" % (pid, k) if ROUND2 else "%s-%s" % (pid, k)
 SEED = os.path.join(WT, "SEED")
 patch = os.path.join(SEED, "patch%s.diff" % k)
 demo = None
@@ -24,7 +26,7 @@ def sh(cmd, **kw):
     return subprocess.run(cmd, shell=True, stdout=subprocess.PIPE, stderr=subprocess.STDOUT, universal_newlines=True, errors="replace", **kw)
 
 def run_demo(san):
-    exe = "/tmp/demo_%s_%s" % (pid, k)
+    exe = "/tmp/demo_%s_%s" % (TAG, k)
     flags = "-g -fsanitize=address,undefined -fno-sanitize-recover=all" if san else ""
     if demo.endswith(".sh"):
         r = sh("cd %s && sh %s" % (WT, demo), timeout=600)
@@ -50,7 +52,7 @@ def run_demo(san):
 
 meta = dict(property=pid, seed=k, patch=os.path.basename(patch))
 if RERUN:
-    d = "/verif/seeded/%s-%s" % (pid, k)
+    d = "/verif/seeded/%s" % TAG
     meta = json.load(open(os.path.join(d, "meta.json")))
     patch = os.path.join(d, "patch.diff")
     det = {}
@@ -133,7 +135,7 @@ else:
 meta["checks_run"] = det
 meta["ran"] = "tools/seedtest.py %s %s %s" % (pid, k, " ".join(ids))
 if tests_ok and demo_ok:
-    d = "/verif/seeded/%s-%s" % (pid, k)
+    d = "/verif/seeded/%s" % TAG
     os.makedirs(d, exist_ok=True)
     shutil.copy(patch, os.path.join(d, "patch.diff"))
     shutil.copy(demo, os.path.join(d, os.path.basename(demo).replace("demo%s" % k, "demo")))
